@@ -1,4 +1,15 @@
-"""hand-made mutants for C11 (batch == sequential); applied to a scratch export of /repo by tools/mutants.py"""
+"""hand-made mutants for C11 (batch == sequential); applied to a scratch export of /repo by tools/mutants.py
+
+All 22 are CAUGHT by the quick tier (by the committed replays AND, checked separately with the replays switched off, by the
+Hypothesis search alone within 450 examples of at least one shard; marshal shards are blind for the member-exception mutants
+because of the open marshal finding).  Repo test-suite on each mutant (449 tests): GREEN for
+  no_break, gate_skipped, oneway_skips_execution, every_call_twice, first_call_twice, server_drops_kwargs,
+  revert_e3112c7_marshal_kwargs_none, revert_9370374_msgpack_exthook, break_only_when_first, oneway_ignores_failure,
+  gate_private_only, dotted_name_resolved, wrapper_loses_attributes, long_batch_truncated
+RED (1-3 of testBatchProxy / testBatchMethod / testBatchOneway / testPyroTracebackBatch fail) for
+  results_reordered, generator_yields_exception, generator_swallows_exception, wrapper_raises_generic, client_drops_kwargs,
+  failure_drops_earlier_results, batchproxy_oneway_returns_generator, last_failure_swallowed
+"""
 from tools.mutant_defs import M
 
 S = "Pyro5/server.py"
